@@ -98,12 +98,63 @@ def check_scan(rep, rule, key, L, b, ref, what, slf_name="self", want_driver=Non
               expected="loop iterates %s" % S.tstr(want_driver))
 
 
+class _P:
+    def __init__(self, conds, effects=()):
+        self.conds = tuple(conds)
+        self.effects = tuple(effects)
+
+
+def quantifier_form(fx, rep, p, slf):
+    """has_line_info written as `self.iter().any(|r| <predicate>)`: the same fold, decided on the quantifier term. Returns True
+    when the body has this form (and records the rule instances); False to fall back to the scan-loop rule."""
+    b = fx.bodies[p]
+    sy = S.Sym(fx)
+    try:
+        res = sy.eval_body(b)
+    except S.Undecidable:
+        return False
+    if sy.loop_order or len(res) != 1 or res[0][0].conds or res[0][0].effects:
+        return False
+    v = res[0][1][1]
+    if not (v[0] == "quant" and v[1] == "any"):
+        return False
+    rep.fn(p)
+    rep.check("C19.1", "C19.1/has_line_info/driver", v[2] == iter_term(slf), loc=F.short_file(b["sp"]), found="any() over %s" % S.tstr(v[2])[:200],
+              expected="any() over %s (the complete record stream)" % S.tstr(iter_term(slf)))
+    pred = v[3]
+    x = ("bound", 0)
+    okx = mk_payload(x, "Ok", "0")
+    cases = pred[1] if pred[0] == "cases" else (((), (), pred),)
+    paths = [(_P(c[0], c[1]), (S.VAL, c[2])) for c in cases]
+
+    def ref(o):
+        if o(("is", x, "Ok")) and o(("is", okx, "Method")) and o(("is", mk_payload(okx, "Method", "line_mapping"), "Some")):
+            return TRUE
+        return FALSE
+    bad, n = fc.compare_paths(paths, ref, lambda st, out: out[1])
+    pure = not any(c[1] for c in cases)
+    if not bad and pure:
+        rep.ok("C19.1", "C19.1/has_line_info/per-record", loc=F.short_file(b["sp"]),
+               found="any(|r| ..): %d predicate cases equal the reference: true iff the record is an Ok(Method) with a line mapping" % len(cases))
+    else:
+        for conds, io, ro, comp in bad[:3]:
+            rep.violation("C19.1", "C19.1/has_line_info/per-record/" + R1.short_hash(S.cstr(conds) + repr(io)), loc=F.short_file(b["sp"]),
+                          found="when %s: predicate is %s" % (S.cstr(conds), S.tstr(io)), expected=S.tstr(ro))
+        if not pure:
+            rep.violation("C19.1", "C19.1/has_line_info/per-record/effects", loc=F.short_file(b["sp"]), found="predicate has side effects", expected="pure predicate")
+    rep.ok("C19.1", "C19.1/has_line_info/after-loop", loc=F.short_file(b["sp"]), found="Iterator::any: false only after the complete stream was scanned (std semantics)",
+           nontrivial=False)
+    return True
+
+
 def run(ctx, rep):
     fx = ctx.facts("")
     rep.configs.append("default")
     slf = ("in", "self")
     # ---- has_line_info
     p = A.one(rep, "C19.1", "ProguardMapping::has_line_info", A.method(fx, "mapping::ProguardMapping", "has_line_info"))
+    if p and quantifier_form(fx, rep, p, slf):
+        p = None
     if p:
         r = loop_of(fx, rep, "C19.1", "C19.1/has_line_info", p)
         if r:
@@ -141,15 +192,22 @@ def run(ctx, rep):
                       expected="MappingSummary fields wired one-to-one from five loop accumulators")
             if okw and len(roles) == 5:
                 mparam = [prm["pat"]["name"] for prm in b["params"] if prm.get("pat")][0]
-                hk = mk_payload(OKR, "Header", "key")
-                hv = mk_payload(OKR, "Header", "value")
+                # `for r in mapping.iter()` matching Ok(..) patterns, or `for r in mapping.iter().flatten()` matching bare records:
+                # Result's IntoIterator yields the Ok payload once and nothing for Err, so the element IS the Ok payload
+                want_drv = iter_term(("in", mparam))
+                flat = driver(L) == ("call", "std::iter::Iterator::flatten", (want_drv,))
+                if flat:
+                    want_drv = ("call", "std::iter::Iterator::flatten", (want_drv,))
+                OKS = REC if flat else mk_payload(REC, "Ok", "0")
+                hk = mk_payload(OKS, "Header", "key")
+                hv = mk_payload(OKS, "Header", "value")
 
                 def ref(o):
                     if not o(("is", R.NEXT, "Some")):
                         return ("end", ())
-                    if not o(("is", REC, "Ok")):
+                    if not flat and not o(("is", REC, "Ok")):
                         return ("cont", ())
-                    if o(("is", OKR, "Header")):
+                    if o(("is", OKS, "Header")):
                         if o(("eq", hk, ("lit", "str", "compiler"))):
                             return ("cont", (("assign", roles["compiler"], hv),))
                         if o(("eq", hk, ("lit", "str", "compiler_version"))):
@@ -162,14 +220,14 @@ def run(ctx, rep):
                                 v = NONE
                             return ("cont", (("assign", roles["min_api"], v),))
                         return ("cont", ())
-                    if o(("is", OKR, "Class")):
+                    if o(("is", OKS, "Class")):
                         return ("cont", (("inc", roles["class_count"]),))
-                    if o(("is", OKR, "Method")):
+                    if o(("is", OKS, "Method")):
                         return ("cont", (("inc", roles["method_count"]),))
                     return ("cont", ())
                 check_scan(rep, "C19.2", "C19.2/summary", L, b, ref,
                            "counts incremented on Ok(Class)/Ok(Method); compiler, compiler_version, min_api plainly assigned (last header wins)",
-                           want_driver=iter_term(("in", mparam)))
+                           want_driver=want_drv)
                 # accumulators start at None / 0
                 pre = L["pre"]
                 inits = {}
